@@ -151,11 +151,13 @@ class Ctx:
         for sig, v in sorted(self.violations.items()):
             print("VIOLATION property=%s replay=%s" % (self.pid, v["path"]))
             print("  signature=%s x%d: %s" % (sig, v["count"], v["what"]))
-        shutil.rmtree(self.scratch, ignore_errors=True)
+        if not os.environ.get("VERIF_KEEP_SCRATCH"):
+            shutil.rmtree(self.scratch, ignore_errors=True)
         self.log("done: %d violation(s), %d known finding(s), states=%d traces=%d evals=%d"
                  % (len(self.violations), len(self.known_hits), self.states,
                     self.traces_validated, self.evaluations))
         return 1 if self.violations else 0
 
     def cleanup(self):
-        shutil.rmtree(self.scratch, ignore_errors=True)
+        if not os.environ.get("VERIF_KEEP_SCRATCH"):
+            shutil.rmtree(self.scratch, ignore_errors=True)
